@@ -114,13 +114,18 @@ package mux
 //
 //@ fn NewPathVersion
 //@   maypanic
+//@   modifies []string:
 //@   ensures [C15] type: typeis(result, "*pathVersion") && unbox(result, "*pathVersion") != nil
 //@   ensures [C15] valid: pvAll(unbox(result, "*pathVersion"))
 //@   ensures [C15] name: unbox(result, "*pathVersion").paramName == param
 //@   ensures [C15] count: len(unbox(result, "*pathVersion").versions) == len(version)
 //@   ensures [C15] normalised: forall j int :: 0 <= j && j < len(version) ==> unbox(result, "*pathVersion").versions[j] == normVer(old(version[j]))
-//@   inv 1 [C15] normalised: (forall j int :: 0 <= j && j <= rangeindex ==> version[j] == normVer(old(version[j]))) &&
-//@        (forall j int :: rangeindex < j && j < len(version) ==> version[j] == old(version[j]))
+//@   ensures [C15,C07] own-copy: len(version) > 0 ==> fresh(unbox(result, "*pathVersion").versions)
+//@   ensures [C15,C07] argument-untouched: forall j int :: 0 <= j && j < len(version) ==> version[j] == old(version[j])
+//@   inv 1 [C15] normalised: len(version) == len(entry_version) && (len(version) > 0 ==> fresh(version)) &&
+//@        (forall j int :: 0 <= j && j <= rangeindex ==> version[j] == normVer(old(entry_version[j]))) &&
+//@        (forall j int :: rangeindex < j && j < len(version) ==> version[j] == old(entry_version[j]))
+//@   inv 1 [C15,C07] argument-untouched: unchanged("[]string")
 //@   inv 1 [C15] bound: -1 <= rangeindex && rangeindex < len(version)
 //@   inv 1 [C15] done: forall j int :: 0 <= j && j <= rangeindex ==> pvValid(version[j])
 //
@@ -128,6 +133,7 @@ package mux
 //@   implements mux.Matcher.Match
 //@   requires v != nil && r.Header != nil && v.errlog != nil
 //@   ensures [C15] accept: result <==> (old(r.Header.first)["Accept"] != "" && pure2("mime.ParseMediaType", old(r.Header.first)["Accept"]) == nil &&
+//@        in(v.acceptKey, pure1("mime.ParseMediaType", old(r.Header.first)["Accept"])) &&
 //@        (exists i int :: 0 <= i && i < len(v.versions) && v.versions[i] == pure1("mime.ParseMediaType", old(r.Header.first)["Accept"])[v.acceptKey]))
 //@   ensures [C15] record: result && v.paramName != "" ==> ctx.params[v.paramName] == pure1("mime.ParseMediaType", old(r.Header.first)["Accept"])[v.acceptKey]
 //@   ensures [C15] others: result ==> (forall x string :: x != v.paramName ==> ctx.params[x] == old(ctx.params[x]))
@@ -139,7 +145,8 @@ package mux
 //@   nopanic
 //@   ensures [C15] type: typeis(result, "*headerVersion") && unbox(result, "*headerVersion") != nil
 //@   ensures [C15] fields: unbox(result, "*headerVersion").paramName == param && unbox(result, "*headerVersion").errlog != nil &&
-//@        unbox(result, "*headerVersion").acceptKey == ((key == "") ? "version" : key)
+//@        unbox(result, "*headerVersion").acceptKey == pure0("strings.ToLower", (key == "") ? "version" : key)
+//@   ensures [C15,C07] own-copy: seqeq(unbox(result, "*headerVersion").versions, version) && (len(version) > 0 ==> fresh(unbox(result, "*headerVersion").versions))
 
 // ---------------------------------------------------------------- options.go: CORS
 
@@ -166,10 +173,15 @@ package mux
 //@ pred reqOrigin(r *http.Request) = r.Header.first["Origin"]
 //@ pred isPreflight(r *http.Request) = r.Method == "OPTIONS" && reqMethod(r) != "" && r.URL.Path != "*" && r.URL.Path != ""
 //@ pred reqHdrs(r *http.Request) = pure0("strings.TrimSpace", r.Header.first["Access-Control-Request-Headers"])
-//@ pred hdrParts(r *http.Request) = pure0("strings.Split", reqHdrs(r), ",")
-//@ opaque pred allowedFoldV(any bool, hs string, allow []string) = any || hs == "" ||
-//@      (forall k int :: 0 <= k && k < len(pure0("strings.Split", hs, ",")) ==> inListFold(allow, pure0("strings.TrimSpace", pure0("strings.Split", hs, ",")[k])))
-//@ pred hdrsAllowedFold(c *cors, r *http.Request) = allowedFoldV(c.anyHeaders, reqHdrs(r), c.AllowHeaders)
+// the requested header names: every element of every Access-Control-Request-Headers line, blanks trimmed, empty
+// elements ignored (they are not header names)
+//@ pred acrhLines(r *http.Request) = hdrLines(r.Header.first, r.Header.all, "Access-Control-Request-Headers")
+//@ pred partOK(allow []string, p string) = pure0("strings.TrimSpace", p) == "" || inListFold(allow, pure0("strings.TrimSpace", p))
+//@ opaque pred lineOK(allow []string, l string) = forall k int :: 0 <= k && k < len(pure0("strings.Split", l, ",")) ==> partOK(allow, pure0("strings.Split", l, ",")[k])
+//@ opaque pred allowedFoldV(any bool, lines []string, allow []string) = any || (forall i int :: 0 <= i && i < len(lines) ==> lineOK(allow, lines[i]))
+//@ pred hdrsAllowedFold(c *cors, r *http.Request) = allowedFoldV(c.anyHeaders, acrhLines(r), c.AllowHeaders)
+// the preflight names exactly one method, and the route serves it
+//@ pred methodOK(node types.Node, r *http.Request) = len(hdrLines(r.Header.first, r.Header.all, "Access-Control-Request-Method")) <= 1 && inList(nodeMethods(node), reqMethod(r))
 //@ pred originOK(c *cors, r *http.Request) = c.anyOrigins || inList(c.Origins, reqOrigin(r))
 //@ pred hdrUnchanged(wh http.Header, f0 `(Array String String)`, a0 `(Array String (Array String Bool))`) = wh.first == f0 && wh.all == a0
 //
@@ -184,8 +196,12 @@ package mux
 //@   nopanic
 //@   ensures [C11] sound: result ==> hdrsAllowedFold(c, r)
 //@   ensures [C12] complete: hdrsAllowedFold(c, r) ==> result
-//@   inv 1 [C11,C12] bound: -1 <= rangeindex && rangeindex < len(hdrParts(r))
-//@   inv 1 [C11,C12] sofar: forall k int :: 0 <= k && k <= rangeindex ==> inListFold(c.AllowHeaders, pure0("strings.TrimSpace", hdrParts(r)[k]))
+//@   inv 1 [C11,C12] bound: -1 <= rangeindex && rangeindex < len(acrhLines(r)) && !c.anyHeaders
+//@   inv 1 [C11,C12] lines-so-far: forall i int :: 0 <= i && i <= rangeindex ==> lineOK(c.AllowHeaders, acrhLines(r)[i])
+//@   inv 2 [C11,C12] bound: -1 <= rangeindex && rangeindex < len(pure0("strings.Split", h, ",")) && !c.anyHeaders &&
+//@        -1 <= rangeindex1 && rangeindex1 + 1 < len(acrhLines(r)) && h == acrhLines(r)[rangeindex1 + 1]
+//@   inv 2 [C11,C12] lines-so-far: forall i int :: 0 <= i && i <= rangeindex1 ==> lineOK(c.AllowHeaders, acrhLines(r)[i])
+//@   inv 2 [C11,C12] parts-so-far: forall k int :: 0 <= k && k <= rangeindex ==> partOK(c.AllowHeaders, pure0("strings.Split", h, ",")[k])
 //
 //@ fn cors.handle
 //@   requires corsValid(c) && r != nil && r.URL != nil && r.Header != nil && wh != nil && node != nil && wh != r.Header
@@ -202,20 +218,20 @@ package mux
 // the paths served by the root node ("*" and the empty path) carry the server-wide method summary: never a preflight
 //@   ensures [C11] root-paths-are-not-preflights: (r.URL.Path == "" || r.URL.Path == "*") ==>
 //@        wh.first["Access-Control-Allow-Methods"] == old(wh.first["Access-Control-Allow-Methods"])
-//@   ensures [C11] preflight-method: isPreflight(r) && !inList(nodeMethods(node), reqMethod(r)) ==> hdrUnchanged(wh, old(wh.first), old(wh.all))
+//@   ensures [C11] preflight-method: isPreflight(r) && !methodOK(node, r) ==> hdrUnchanged(wh, old(wh.first), old(wh.all))
 //@   ensures [C11] preflight-header: isPreflight(r) && !hdrsAllowedFold(c, r) ==>
 //@        wh.first["Access-Control-Allow-Origin"] == old(wh.first)["Access-Control-Allow-Origin"] &&
 //@        wh.first["Access-Control-Allow-Credentials"] == old(wh.first)["Access-Control-Allow-Credentials"]
 //@   ensures [C11] bad-origin: !originOK(c, r) ==>
 //@        wh.first["Access-Control-Allow-Origin"] == old(wh.first)["Access-Control-Allow-Origin"] &&
 //@        wh.first["Access-Control-Allow-Credentials"] == old(wh.first)["Access-Control-Allow-Credentials"]
-//@   ensures [C12] grant-origin: !c.deny && originOK(c, r) && (isPreflight(r) ==> inList(nodeMethods(node), reqMethod(r)) && hdrsAllowedFold(c, r)) ==>
+//@   ensures [C12] grant-origin: !c.deny && originOK(c, r) && (isPreflight(r) ==> methodOK(node, r) && hdrsAllowedFold(c, r)) ==>
 //@        wh.first["Access-Control-Allow-Origin"] == (c.anyOrigins ? "*" : reqOrigin(r)) &&
 //@        (c.AllowCredentials ==> wh.first["Access-Control-Allow-Credentials"] == "true") &&
 //@        (!c.AllowCredentials ==> wh.first["Access-Control-Allow-Credentials"] == old(wh.first)["Access-Control-Allow-Credentials"]) &&
 //@        (c.exposedHeadersString != "" ==> wh.first["Access-Control-Expose-Headers"] == c.exposedHeadersString) &&
 //@        (c.exposedHeadersString == "" ==> wh.first["Access-Control-Expose-Headers"] == old(wh.first)["Access-Control-Expose-Headers"])
-//@   ensures [C12] grant-preflight: !c.deny && originOK(c, r) && isPreflight(r) && inList(nodeMethods(node), reqMethod(r)) && hdrsAllowedFold(c, r) ==>
+//@   ensures [C12] grant-preflight: !c.deny && originOK(c, r) && isPreflight(r) && methodOK(node, r) && hdrsAllowedFold(c, r) ==>
 //@        wh.first["Access-Control-Allow-Methods"] == nodeAllow(node) &&
 //@        (c.allowHeadersString != "" ==> wh.first["Access-Control-Allow-Headers"] == c.allowHeadersString) &&
 //@        (c.maxAgeString != "" ==> wh.first["Access-Control-Max-Age"] == c.maxAgeString)
@@ -223,10 +239,10 @@ package mux
 //@        wh.first["Access-Control-Allow-Methods"] == old(wh.first)["Access-Control-Allow-Methods"] &&
 //@        wh.first["Access-Control-Allow-Headers"] == old(wh.first)["Access-Control-Allow-Headers"] &&
 //@        wh.first["Access-Control-Max-Age"] == old(wh.first)["Access-Control-Max-Age"]
-//@   ensures [C12] vary-origin: !c.deny && originOK(c, r) && (isPreflight(r) ==> inList(nodeMethods(node), reqMethod(r)) && hdrsAllowedFold(c, r)) ==>
+//@   ensures [C12] vary-origin: !c.deny && originOK(c, r) && (isPreflight(r) ==> methodOK(node, r) && hdrsAllowedFold(c, r)) ==>
 //@        (!c.anyOrigins ==> wh.all["Vary"]["Origin"])
-//@   ensures [C12] vary-preflight: !c.deny && isPreflight(r) && inList(nodeMethods(node), reqMethod(r)) ==> wh.all["Vary"]["Access-Control-Request-Method"]
-//@   ensures [C12] vary-headers: !c.deny && isPreflight(r) && inList(nodeMethods(node), reqMethod(r)) && hdrsAllowedFold(c, r) && c.allowHeadersString != "" ==>
+//@   ensures [C12] vary-preflight: !c.deny && isPreflight(r) && methodOK(node, r) ==> wh.all["Vary"]["Access-Control-Request-Method"]
+//@   ensures [C12] vary-headers: !c.deny && isPreflight(r) && methodOK(node, r) && hdrsAllowedFold(c, r) && c.allowHeadersString != "" ==>
 //@        wh.all["Vary"]["Access-Control-Request-Headers"]
 //@   ensures [C12] vary-only-request-names: forall x string :: wh.all["Vary"][x] && !old(wh.all)["Vary"][x] ==>
 //@        (x == "Origin" || x == "Access-Control-Request-Method" || x == "Access-Control-Request-Headers")
@@ -562,7 +578,7 @@ package mux
 //@   atcall mux.CallFunc [C13] not-found: arg0 == g.call && arg1 == w && arg2 == r && arg3 == box(callresult("types.NewContext", 1, 0)) && arg4 == g.notFound &&
 //@        r.URL.Path == old(r.URL.Path) && noParams(callresult("types.NewContext", 1, 0))
 //@   atcall types.Context.Destroy [C07,C16] release: arg0 == callresult("types.NewContext", 1, 0)
-//@   xensures [C16] escapes-only-without-recovery: g.recoverFunc == nil || (exists k int :: 0 <= k && k < len(g.routers) && g.routers[k].recoverFunc == nil)
+//@   xensures [C16] escapes-only-without-recovery: g.recoverFunc == nil
 //@   inv 1 [C13] bound: -1 <= rangeindex && rangeindex < len(g.routers) && groupOK(g) && allSafe()
 //@   inv 1 [C13] untouched: r.URL.Path == old(r.URL.Path) && noParams(callresult("types.NewContext", 1, 0))
 
@@ -681,7 +697,8 @@ package mux
 //@   ensures [C10] sets: o.urlDomain == prefix
 //@ fn WithCORS$1
 //@   requires o != nil
-//@   ensures [C11,C12] replaces: o.cors != nil && fresh(o.cors) && o.cors.Origins == origin && o.cors.AllowHeaders == allowHeaders && o.cors.ExposedHeaders == exposedHeaders &&
+//@   ensures [C11,C07] own-copies: (len(origin) > 0 ==> fresh(o.cors.Origins)) && (len(allowHeaders) > 0 ==> fresh(o.cors.AllowHeaders))
+//@   ensures [C11,C12] replaces: o.cors != nil && fresh(o.cors) && seqeq(o.cors.Origins, origin) && seqeq(o.cors.AllowHeaders, allowHeaders) && seqeq(o.cors.ExposedHeaders, exposedHeaders) &&
 //@        o.cors.MaxAge == maxAge && o.cors.AllowCredentials == allowCredentials && !o.cors.anyOrigins && !o.cors.anyHeaders && !o.cors.deny
 //@ fn options.sanitize
 //@   requires o != nil
